@@ -1398,6 +1398,20 @@ impl RepDefUnraveler {
         }
     }
 
+    /// The number of slots the current (struct / item) layer has in this page: the entries that
+    /// are visible at the current repetition depth.  `num_items` is only right for the
+    /// inner-most layer.
+    fn num_visible_slots(&self) -> usize {
+        match (&self.def_levels, &self.rep_levels) {
+            (Some(def), _) => def
+                .iter()
+                .filter(|&&level| self.levels_to_rep[level as usize] <= self.current_rep_cmp)
+                .count(),
+            (None, Some(rep)) => rep.len(),
+            (None, None) => self.num_items as usize,
+        }
+    }
+
     pub fn skip_validity(&mut self) {
         debug_assert!(
             self.def_meaning[self.current_layer] == DefinitionInterpretation::AllValidItem
@@ -1409,7 +1423,7 @@ impl RepDefUnraveler {
     pub fn unravel_validity(&mut self, validity: &mut BooleanBufferBuilder) {
         if self.def_meaning[self.current_layer] == DefinitionInterpretation::AllValidItem {
             self.current_layer += 1;
-            validity.append_n(self.num_items as usize, true);
+            validity.append_n(self.num_visible_slots(), true);
             return;
         }
 
